@@ -23,15 +23,21 @@ import json
 import vlib
 import c01_deep
 
-SURV = dict(Survive=True)
+# The tree as it is: a surviving job publishes the previous assembly's complete checkpoints after it has re-assembled
+# (known finding Dev_LatePublication, see harness/cmd/recovery knownLatePub). Set to False once the repo gives them
+# up at re-assembly (repo branch c01surv-store): the behaviours are then generated from the intended design.
+DEV_LATEPUB = True
 
 
 def run_surv(c, m):
     quick = c.tier == "quick"
     base = dict(m.BASE, Survive=True)
+    gen = dict(Dev_LatePublication=DEV_LATEPUB)
     w3 = dict(base, W=3, NSplits=3, NRecs=2, KeyDigits=123231, OwnerDigits=123, B=2, MaxCkpt=3, MaxKills=3)
     if quick:
         c01_deep.exhaustive(c, m, dict(base, NRecs=1, KeyDigits=12), "survivors, 2x1 records, 2 ckpts, 2 kills", ["RestartSame"])
+        if DEV_LATEPUB:
+            c01_deep.exhaustive(c, m, dict(base, NRecs=1, KeyDigits=12, MaxKills=1, Dev_LatePublication=True), "survivors, writes land late, 1 kill", ["RestartSame"])
     else:
         c01_deep.exhaustive(c, m, base, "survivors", ["RestartSame"])
         c01_deep.exhaustive(c, m, dict(base, Overlap=True, MaxKills=1), "survivors + overlapping publications, 1 kill", ["RestartSame", "TickOverlap"])
@@ -40,8 +46,8 @@ def run_surv(c, m):
     n = (60, 30) if quick else (400, 300)
     s = c.seed * 100 + 70
     extra = dict(c01_deep.DKV, Survive=True, Chunk=15, StopAfterViolations=5, BudgetS=m.BUDGET[c.tier])
-    m.stage(c, c01_deep.replay_generated, c, m, dict(base, KillJob=True, KillDilution=8, MaxKills=2, PubDilution=6), n[0], 110, s, 4, "survivors 2 workers", extra, need)
-    m.stage(c, c01_deep.replay_generated, c, m, dict(w3, KillDilution=8, PubDilution=6), n[1], 170, s + 1, 7, "survivors 3 workers B=2", extra, need)
+    m.stage(c, c01_deep.replay_generated, c, m, dict(base, KillJob=True, KillDilution=8, MaxKills=2, PubDilution=6, **gen), n[0], 110, s, 4, "survivors 2 workers", extra, need)
+    m.stage(c, c01_deep.replay_generated, c, m, dict(w3, KillDilution=8, PubDilution=6, **gen), n[1], 170, s + 1, 7, "survivors 3 workers B=2", extra, need)
     c.assumptions += [
         "survivors arm: a call to a killed node hangs (it neither fails nor is delivered), StartCheckpoint calls of the old assembly fail, its "
         "checkpoint acknowledgements are rejected by the job; a worker one half of which ends by itself stops as a whole (workers.Worker) and is "
